@@ -55,6 +55,11 @@ def cases(tier, seed):
     # supercells of a few thousand atoms (27 images of them: tens of thousands of candidate positions)
     for j in range(2 if tier == "quick" else 40):
         out.append({"kind": "big_supercell", "s": int(rng.integers(1 << 30)), "cell": ["ortho", "tri+-+"][j % 2], "atol": 0.05, "dims": [[5, 5, 5], [6, 5, 4], [4, 6, 5]][j % 3]})
+    # a strict tolerance (1e-5, 1e-6 A) on exact copies, as used to tell apart nearly identical conformers: the tolerance is
+    # absolute, also 100 A from the origin (supercells) - double precision leaves eight orders of magnitude of room
+    for j in range(10 if tier == "quick" else 600):
+        out.append({"kind": "tight_tolerance", "s": int(rng.integers(1 << 30)), "cell": ["ortho", "tri+-+", "general_tri", "tri--+", "ortho_big"][j % 5],
+                    "pattern": ["asym4", "chiral4", "twofold", "pair_hetero"][j % 4], "atol": [1e-6, 1e-5][j % 2], "dims": [[4, 4, 4], [3, 5, 4], [5, 3, 3]][j % 3]})
     for j in range(36 if tier == "quick" else 3000):
         out.append({"kind": "near_degenerate_hints", "s": int(rng.integers(1 << 30)), "cell": ["ortho", "tri+-+", "general_tri", "tri--+"][j % 4],
                     "atol": [0.05, 0.2, 0.01][j % 3]})
@@ -296,6 +301,25 @@ def run_case(case, ctx):
             if len(S) <= 14:
                 ctx.sample({"kind": "synthetic", "case": {k: case[k] for k in ("cell", "pattern", "atol", "dims")}, "n_atoms": len(S), "clear_base_matches": nclear})
         return
+    if case["kind"] == "tight_tolerance":
+        pat = patterns.make(rng, case["pattern"])
+        atol = case["atol"]
+        built = planted.build(rng, pat, case["cell"], 0.05, n_copies=int(rng.integers(1, 4)), crossings=[int(x) for x in rng.integers(0, 4, 3)], poses=["random"] * 3,
+                              decoys=[], n_bystanders=int(rng.integers(2, 8)), n_distractors=0, perturb=0.0)
+        S, P = built["atoms"], patterns.to_atoms(pat)
+        w = {"kind": case["kind"], "cell_class": case["cell"], "cell": np.asarray(built["cell"], float).tolist(), "pattern_class": pat["cls"], "atol": atol,
+             "pattern_elements": pat["elements"], "pattern_positions": np.asarray(pat["positions"], float).tolist(), "planted": built["planted"], "n_atoms": len(S),
+             "structure_elements": elements_of(S), "structure_positions": np.asarray(S.positions, float).tolist()}
+        from vmon.contracts import c01_domain
+        if not c01_domain(S, P, atol):
+            st.count("out_of_domain_skipped")
+            return
+        nclear = metamorphic(ctx, st, S, P, atol, rng, w, case["dims"], case["s"])
+        if nclear:
+            st.count("strict_tolerance_cases_with_clear_matches")
+            st.count("strict_tolerance_clear_matches", nclear)
+            ctx.nontrivial([case["kind"], case["s"]])
+        return
     if case["kind"] == "big_supercell":
         pat = patterns.make(rng, ["asym4", "chiral4", "twofold", "pair_hetero"][case["s"] % 4])
         atol = case["atol"]
@@ -421,6 +445,8 @@ def requirements(stats, tier):
         need.append("too few clear base matches: %d" % stats.get("base_clear_groups"))
     if stats.get("searches_for_a_pattern_with_an_element_the_structure_lacks") < (10 if tier == "quick" else 1000):
         need.append("patterns with an element the structure lacks: %d" % stats.get("searches_for_a_pattern_with_an_element_the_structure_lacks"))
+    if stats.get("strict_tolerance_cases_with_clear_matches") < (8 if tier == "quick" else 500):
+        need.append("cases with a strict tolerance (1e-5, 1e-6) and clear matches: %d" % stats.get("strict_tolerance_cases_with_clear_matches"))
     if stats.get("big_supercell_searches") < (2 if tier == "quick" else 40):
         need.append("searches of supercells of thousands of atoms: %d" % stats.get("big_supercell_searches"))
     if stats.get("near_degenerate_hint_searches") < (150 if tier == "quick" else 12000):
